@@ -240,8 +240,10 @@ class C11(SyncProp):
             for f in kd["files"]:
                 if f["content"] and f["prestate"] in ("stale", "agreeing", "absent") and r.random() < 0.7:
                     rr = random.Random(r.randrange(1 << 30))
+                    long_doc = 'def load(path):\n    """\n    Load it.\n\n    %s"""\n    return path\n' % ("w" * rr.randint(96, 112))
                     before = "".join(rr.choice(projgen.OTHER_SRC + ["X: int = 3\n", "class Other(object):\n    def method_name(self, a=1):\n        return a\n"]) for _ in range(rr.randint(0, 2)))
-                    after = "".join(rr.choice(projgen.OTHER_SRC[1:] + ["def later(value, a=2):\n    return value\n"]) for _ in range(rr.randint(0, 2)))
+                    simple = kd["name"].split(".")[0]
+                    after = "".join(rr.choice(projgen.OTHER_SRC[1:] + ["def later(value, a=2):\n    return value\n", long_doc] + (["%s = register(%s)\n" % (simple, simple)] if k == "class" and f["prestate"] in ("stale", "agreeing") else [])) for _ in range(rr.randint(0, 2)))
                     nl = "" if f["content"].endswith("\n") else "\n"
                     new = before + f["content"] + nl + after
                     if r.random() < 0.3:
